@@ -10,7 +10,9 @@ operands to a public operation gives label-equal results, and states the result'
 order (left operand first / the target's order / the requested order).
 They are corollaries of the spec theorems of C01, C06 and C07 (each spec mentions its inputs only
 through their label view) and of the permutation invariance of nested sums (`sumOver_perm`).
-DataFrame export/import, stacking and the lifetime-parameter cast are covered in C11 and C08.
+Assignment (`setitem_source_order_independent`, `setitem_whole_order_independent`) follows from the C05 specs,
+the lifetime-parameter cast from `castTo_spec`. DataFrame export/import and stacking are covered in C11 and
+by the streams that permute storage orders.
 -/
 namespace Flodym.C04
 open Flodym DimSet SubArray
@@ -213,6 +215,23 @@ theorem setitem_whole_order_independent [AddCommMonoid α] (x x' y y' : FArr α)
   have hve' : Valid x'.dims e := fun d hd => hve d (hxx.mem_iff.mp hd)
   rw [h4 e hve, h4' e hve']
   exact margin_labelEq y y' hy' hyy _ _ (fun c => (mem_letters_perm hxx c).symm) e
+
+/-- a parameter handed to a lifetime model is cast to the model's dimensions (`cast_any_to_np_array` =
+`cast_to(model dims)`): the table of parameters the model works with has the model's order and the same
+entry under every label combination, whatever order the parameter array stores its dimensions in -/
+theorem lifetime_parameter_order_independent [AddCommMonoid α] (prm prm' : FArr α) (modelDims : DimSet)
+    (hp : WF prm) (hp' : WF prm') (hT : (letters modelDims).Nodup) (hc : Compatible prm.dims modelDims)
+    (hsub : ∀ l ∈ prm.letters, l ∈ letters modelDims) (hpp : LabelEq prm prm') :
+    ∃ r r', prm.castTo? modelDims = some r ∧ prm'.castTo? modelDims = some r' ∧
+      r.dims = modelDims ∧ r'.dims = modelDims ∧
+      ∀ e, Valid modelDims e → r'.at e = prm.at e ∧ r.at e = prm.at e := by
+  have hc' : Compatible prm'.dims modelDims :=
+    fun d hd d' hd' hl => hc d (hpp.1.mem_iff.mp hd) d' hd' hl
+  have hsub' : ∀ l ∈ prm'.letters, l ∈ letters modelDims :=
+    fun l hl => hsub l ((mem_letters_perm hpp.1 l).mp hl)
+  obtain ⟨r, h1, h2, _, h4⟩ := castTo_spec prm modelDims hp hT hc hsub
+  obtain ⟨r', h1', h2', _, h4'⟩ := castTo_spec prm' modelDims hp' hT hc' hsub'
+  exact ⟨r, r', h1, h1', h2, h2', fun e hv => ⟨by rw [h4' e hv, hpp.2 e], h4 e hv⟩⟩
 
 /-! ### non-vacuity: a transposed pair with equal lengths -/
 def dA : Dim := { letter := 'a', name := "aa", items := [.int 1, .int 2] }
